@@ -103,6 +103,28 @@ def gen_method(rng, big=False):
             tries[1] = (tries[0][1], b, h)
         if len(tries) >= 3 and rng.random() < 0.5:        # A B A: two ranges share a handler around a third
             tries[2] = (tries[2][0], tries[2][1], tries[0][2])
+    # a fifth of the methods with a switch: its table in front of the switch (the table offset of 31t is signed), the entry jumps over it
+    sw = [k for k, it in enumerate(items) if it[0] == "switch" and it[2][0] == "i" and it[2][1] < len(items) and items[it[2][1]][0] in ("ppay", "spay")]
+    if sw and not tail_after and rng.random() < 0.2:
+        pi = items[rng.choice(sw)][2][1]                 # the item index of the table to move
+        table = items[pi]
+        si = lambda n_: 2 if n_ == pi else n_ + 3 - (1 if n_ > pi else 0)
+        sh = lambda t: ("i", si(t[1])) if t[0] == "i" else t
+
+        def shift_item(it):
+            if it[0] in ("goto", "if", "switch"):
+                return (it[0], it[1], sh(it[2]))
+            if it[0] == "fill":
+                return (it[0], sh(it[1]))
+            if it[0] == "ppay":
+                return (it[0], si(it[1]), it[2], [sh(t) for t in it[3]])
+            if it[0] == "spay":
+                return (it[0], si(it[1]), [sh(t) for t in it[2]])
+            return it
+        rest = [shift_item(it) for k, it in enumerate(items) if k != pi]
+        items = [("goto", 2, ("i", 3)), ("align",), shift_item(table)] + rest
+        tries = [(si(a), si(b), h) for a, b, h in tries]
+        handlers = [([(t, si(i)) for t, i in typed], (si(ca) if ca is not None else None)) for typed, ca in handlers]
     return items, tries, handlers
 
 
